@@ -357,7 +357,7 @@ class CHText:
             for part in other:
                 self += part
         elif isinstance(other, type(self)):
-            for part in other.chunks:
+            for part in list(other.chunks):  # 'other' may be 'self'
                 self._append_chunk(part)
         else:
             self._append_chunk(self.Chunk.make_plain(str(other)))
